@@ -196,6 +196,9 @@ func (r *Runner) builtin(ctx context.Context, pos syntax.Pos, name string, args 
 		default:
 			return failf(2, "usage: shift [n]\n")
 		}
+		if n < 0 {
+			return failf(1, "shift: %d: shift count out of range\n", n)
+		}
 		if n >= len(r.Params) {
 			r.Params = nil
 		} else {
@@ -1215,6 +1218,10 @@ func (g *getopts) next(optstr string, args []string) (opt rune, optarg string, d
 	}
 
 	opts := arg[1:]
+	if g.runeidx >= len(opts) {
+		// The arguments changed since the last call without OPTIND being reset.
+		g.runeidx = 0
+	}
 	opt = opts[g.runeidx]
 
 	i := strings.IndexRune(optstr, opt)
